@@ -247,9 +247,18 @@ func (ex *Exec) callFunc(p *Path, fn *types.Func, recv *Value, args []Value, cal
 		pos = call.Pos()
 	}
 	if evName, isEvent := ex.eventName(fn, call); isEvent {
-		ex.atCallObligations(p, evName, args, pos)
+		// a P call is an event under every emitted-text substring the contract names that its literal text contains
+		names := []string{evName}
+		if strings.HasPrefix(evName, "P:") {
+			names = ex.textEventNames(call)
+		}
+		for _, n := range names {
+			ex.atCallObligations(p, n, args, pos)
+		}
 		res := ex.callFuncInner(p, fn, recv, args, call)
-		ex.recordEvent(p, evName, args, res, pos)
+		for _, n := range names {
+			ex.recordEvent(p, n, args, res, pos)
+		}
 		return res
 	}
 	return ex.callFuncInner(p, fn, recv, args, call)
@@ -756,15 +765,31 @@ func (ex *Exec) callValue(p *Path, fv Value, args []Value, call *ast.CallExpr) [
 	} else if sel, ok := unparen(call.Fun).(*ast.SelectorExpr); ok {
 		name = sel.Sel.Name
 	}
+	names := []string{name}
+	if name == "p" && len(ex.pfEvents) > 0 && len(args) > 0 {
+		// emitted text through a printf-style printer: also an event under every substring of its literal format the
+		// contract names (count("p:<substring>"), at-call "p:<substring>")
+		if f, ok := smtStringLiteral(args[0].T); ok {
+			for _, want := range ex.pfEvents {
+				if strings.Contains(f, want) {
+					names = append(names, "p:"+want)
+				}
+			}
+		}
+	}
 	if ex.traceEvents {
-		ex.atCallObligations(p, name, args, call.Pos())
+		for _, n := range names {
+			ex.atCallObligations(p, n, args, call.Pos())
+		}
 	}
 	ex.havocMutableHeap(p)
 	defer func() {}()
 	var out []Value
 	defer func() {
 		if ex.traceEvents {
-			ex.recordEvent(p, name, args, out, call.Pos())
+			for _, n := range names {
+				ex.recordEvent(p, n, args, out, call.Pos())
+			}
 		}
 	}()
 	for i := 0; i < sig.Results().Len(); i++ {
